@@ -82,6 +82,14 @@ CLAIMED = {
                      "depth must carry the mark of the highest-priority present source in both directions; exact-type matching of "
                      "mapping-form handlers, NotImplemented deferral and the place of registered global handlers are checked the same way.",
                 design_ref="DESIGN.md 5/C18", technique="symbolic execution (CrossHair+z3) vs the documented total order"),
+    'C05': dict(text="For 45 types and 7 dataclass layout/renaming/alias/exclusion configurations, symbolic data d is converted, serialised, "
+                     "parsed again and serialised again on every feasible path: the serialised form must be interchange data (type-exact), "
+                     "read back as the same value, and be stable.",
+                design_ref="DESIGN.md 5/C05", technique="symbolic execution (CrossHair+z3), parse-after-serialise oracle"),
+    'C06': dict(text="convert(convert(d, T), T) == convert(d, T) for 43 types on symbolic data, and convert(x, T) == x (same type) for 26 kinds "
+                     "of natively built typed values (containers of symbolic ints, enum members, nested dataclass instances, "
+                     "Fraction/Decimal/dates/paths/patterns by symbolic index) including through a dataclass constructor.",
+                design_ref="DESIGN.md 5/C06", technique="symbolic execution (CrossHair+z3), convert against its own input"),
 }
 
 NA = {
